@@ -197,6 +197,7 @@ fn strat_frag(t: Tier) -> proptest::strategy::BoxedStrategy<crate::fragcase::Fra
 
 pub fn def() -> PropertyDef {
     PropertyDef {
+        fuzz_targets: &["c10_frag"],
         id: "C02",
         level: "exploration",
         rule: "every emitted stream (progressive files from valid and degenerate histories; fragmented init and media segments \
